@@ -425,8 +425,10 @@ def expected(line):
         else:
             if isinstance(v, list):
                 ev.toks.append("(")
-                ev.arr(v, items)      # the root array scope has no parent: nothing depends on its tail
+                left = ev.arr(v, items)
                 ev.toks.append(")")
+                if left:
+                    ev.partial = True     # a root array left partly read: the reader stays inside it (F14 at the root)
             else:
                 ev.not_container(v)
     except Stop as s:
@@ -690,7 +692,7 @@ def gen_wellformed(rng, tier):
             for perm in itertools.permutations(reqs):
                 kind = rng.choice(KINDS)
                 cases.append(case_line("hist", kind, pol, data, list(perm)))
-            cases.append(case_line("hist", rng.choice("ms"), pol, data, [{"k": "G", "key": "szz", "tg": "s32"}] + reqs[::-1] + reqs))
+            cases.append(case_line("hist", rng.choice("ms"), pol, data, [{"k": "G", "key": "s7a7a", "tg": "s32"}] + reqs[::-1] + reqs))
     # random histories, length <= 24
     for _ in range(nrand):
         doc = rand_obj(rng, rng.choice([0, 1, 2, 3, 4, 5, 6, 7, 8]), 0)
